@@ -68,7 +68,8 @@ ISO_NOTE = TRUST + ("spec/SMGIso.tla (Isos = every structure-preserving bijectio
                     "(graphs on <= 4 ids x {H,C}, reaction graphs on <= 3 ids, stereo templates up to 8 atoms); the two members of a pair "
                     "get disjoint identifier sets and different insertion orders.")
 ISO_TECH = ("TLA+ brute-force isomorphism oracle (SMGIso) evaluated by TLC on enumerated case families (MC_IsoPairs); every pair replayed "
-            "on the real classes")
+            "on the real classes; reaction graphs that 1-WL colour refinement cannot separate (MC_WLHard: orbit representatives of "
+            "bond-role labelings on regular skeletons, paired by equal colour bag of the refinement design model)")
 CHECKS.update({
     "C01": dict(category="model_checking",
         text="For every pair for which TLC's exhaustive search finds a structure-preserving bijection (each family member against "
@@ -179,11 +180,13 @@ CHECKS.update({
     "C18": dict(category="exploration",
         text="Structural part: MC_BondOrd enumerates every symmetric 0/1 matrix on 2-4 atoms (5 sampled) x element lists incl. "
              "chemically impossible ones; Obs_BondOrd (TLC) checks symmetry, integrality and bo>=1 exactly on bonded pairs. Chemical "
-             "part: corpus molecules certified by RDKit's kekulised structure, several atom orders, through connectivity2bond_orders "
+             "part, by construction: MC_Lewis builds EVERY neutral closed-shell molecule with <= 3 heavy atoms of C N O S P F (4 heavy "
+             "atoms, chains and rings up to 6: sampled / restricted element sets) as a Lewis structure in standard valences, forgets "
+             "the bond orders and lists the atoms in four orders; plus corpus molecules certified by RDKit's kekulised structure, several atom orders, through connectivity2bond_orders "
              "and through to_rdmol(generate_bond_orders=True) with shuffled non-contiguous identifiers; Obs_BondOrd checks standard "
              "valences, no charges, no unpaired electrons.",
         design_ref="DESIGN.md 6 (C18)", note=RD_NOTE,
-        technique="TLC-enumerated connectivity inputs; recorded outputs validated by TLC (Obs_BondOrd)"),
+        technique="TLC-enumerated connectivity inputs and TLC-constructed Lewis structures (MC_BondOrd, MC_Lewis); recorded outputs validated by TLC (Obs_BondOrd)"),
 })
 
 PENDING_REASON = "check not built yet in this round; planned with the TLA+ technique as described in DESIGN.md section 6"
